@@ -56,11 +56,14 @@ def loop_doms(ev: Event) -> List[Term]:
 def residual(ev: Event, context: Sequence[Term]) -> List[Conj]:
     """path-condition conjuncts that are neither raise-survivors, loop conditions nor implied by the declared context."""
     out = []
-    for c in ev.pc:
+    for i, c in enumerate(ev.pc):
         if c.prov in ("raise-surv", "loopcond"):
             continue        # (a while loop's own condition is loop context, like a for loop's domain)
         if any(implies(x, c.term) for x in context):
             continue
+        if c.term[0] == "cmpz" and c.term[1] == "!=" and c.term[2][0] == "call" and c.term[2][1] == ("g", "builtin:len") \
+                and any(c.term[2][2] == (l[1],) and i < l[3] for l in ev.loops if l[0] == "for"):
+            continue        # `if xs:` around `for x in xs:` - the body runs for the elements of xs either way
         out.append(c)
     return out
 
